@@ -129,8 +129,8 @@ vh::Outcome run_rcu(const vh::Case& c, Prop prop) {
                     switch (kind % 4) {
                         case 0: h->push_front(E::make(v)); break;
                         case 1: h->push_back(E::make(v)); break;
-                        case 2: h->emplace_front(E::make(v)); break;
-                        default: h->emplace_back(E::make(v)); break;
+                        case 2: { T lv = E::make(v); h->emplace_front(lv); break; }      // lvalue: the node's element is copy-constructed inside the list
+                        default: { T lv = E::make(v); h->emplace_back(lv); break; }
                     }
                 } catch (const vrt::InjectedFault&) {
                     // the element's copy/move constructor threw: the list must be unchanged and nothing half-built may be destroyed (strong guarantee)
